@@ -179,3 +179,39 @@ theorem copy_deps_fresh (t : Nat) {w' : World} {t' : Nat} (hc : copySet w t = so
     · simp at hb
 
 end Mesa.CopySet
+
+namespace Mesa.CopySet
+
+variable {w : World}
+
+/-- the model of an alive member is alive and is one of the reconstructed models -/
+theorem member_model {r : SetRec} {a : Nat} (ha : a ∈ aliveMembers w r) :
+    ∃ ar mr, w.agents a = some ar ∧ w.models ar.model = some mr ∧ modelAlive w ar.model = true ∧ ar.model ∈ copiedM w r := by
+  have hal := (List.mem_filter.mp ha).2
+  obtain ⟨ar, mr, har, hmr, hma, _⟩ := agentAlive_some hal
+  exact ⟨ar, mr, har, hmr, hma, mem_copiedM ha har⟩
+
+/-- the registry of a reconstructed model is the shifted registry of the original — every registered agent, members of the set
+    or not, in registration order — and the reconstructed model is alive -/
+theorem copy_registry (t : Nat) {r : SetRec} {m : Nat} {mr : ModelRec} (hm : m ∈ copiedM w r) (hmr : w.models m = some mr) :
+    regView (copyWorld w t r true) (m + w.next) = some (mr.reg.map (· + w.next)) ∧
+    (copyWorld w t r true).models (m + w.next) = some { reg := mr.reg.map (· + w.next), gen := mr.gen + w.next } := by
+  have hcM : (copiedM w r).contains m = true := by simpa using hm
+  have hmod : (copyWorld w t r true).models (m + w.next) =
+      some { reg := mr.reg.map (· + w.next), gen := mr.gen + w.next } := by
+    rw [copyWorld_models_shift]; simp only [hcM, if_true, hmr, Option.map_some]
+  refine ⟨?_, hmod⟩
+  have halive : modelAlive (copyWorld w t r true) (m + w.next) = true := by
+    unfold modelAlive
+    rw [hmod]
+    simp only [Option.isSome_some, Bool.true_and, Bool.or_eq_true]
+    right
+    unfold owned
+    rw [copyWorld_setIds, List.any_append]
+    simp only [List.any_cons, List.any_nil, Bool.or_false, Bool.or_eq_true]
+    right
+    simp only [ownersOf, copyWorld_sets_new, if_true, List.contains_iff_mem, List.mem_map]
+    exact ⟨m, hm, rfl⟩
+  simp only [regView, halive, if_true, hmod, Option.map_some]
+
+end Mesa.CopySet
